@@ -88,10 +88,11 @@ def guards():
     r12 = dict(MaxN=3, MaxW=3, Gather='"by_task"')
     add("C12 repaired", mc("MC_C12", r12, ["ScheduleFree"]), None)
     add("C12 gather by arrival", mc("MC_C12", dict(r12, Gather='"by_arrival"'), ["ScheduleFree"]), "ScheduleFree")
-    r13 = dict(Norm="TRUE", PropagateFault="TRUE", OutRoot='"out"')
+    r13 = dict(Norm='"abspath"', PropagateFault="TRUE", OutRoot='"out"')
     i13 = ["DefaultBeside", "WritesUnderOutput", "InputsUntouched", "FailureVisible"]
     add("C13 repaired", mc("MC_C13", r13, i13, spec="Spec"), None)
-    add("C13 raw path text", mc("MC_C13", dict(r13, Norm="FALSE"), i13, spec="Spec"), "DefaultBeside")
+    add("C13 raw path text", mc("MC_C13", dict(r13, Norm='"none"'), i13, spec="Spec"), "DefaultBeside")
+    add("C13 normpath only ('.' and '..')", mc("MC_C13", dict(r13, Norm='"normpath"'), i13, spec="Spec"), "DefaultBeside")
     add("C13 swallowed fault", mc("MC_C13", dict(r13, PropagateFault="FALSE"), i13, spec="Spec"), "FailureVisible")
     add("C13 writes into the input", mc("MC_C13", dict(r13, OutRoot='"in1"'), i13, spec="Spec"), "WritesUnderOutput")
     r16 = dict(N0=3, T0=2, MaxLev=2, MaxFine=1, ChunkRule='"ceil"', EmitMod=1, EmitRes=0)
